@@ -35,12 +35,18 @@ fn boundary_lens(scn: &Scn) -> Vec<usize> {
         b.push(frag1 as i64 - ch as i64 + k * fragn as i64);
     }
     let mut set: BTreeSet<usize> = [0usize, 1, 2, 1400].into_iter().collect();
+    // uncompressed size = initial reassembly buffer size, +-1
     let maxin = max_ipv6_len() - uh - extra;
     set.insert(maxin - 1);
     set.insert(maxin);
-    // beyond the buffers: only the safety clauses apply
     set.insert(maxin + 1);
-    set.insert(maxin + 21);
+    // compressed size = fragmentation buffer size - 1, exactly, + 1 (the largest datagram the
+    // sender can stage), and well beyond: only the safety clauses apply there
+    let cap = cap_len(scn);
+    set.insert(cap - 1);
+    set.insert(cap);
+    set.insert(cap + 1);
+    set.insert(cap + 20);
     for x in b {
         for d in [-9i64, -8, -7, -2, -1, 0, 1, 2, 7, 8, 9] {
             let v = x - extra as i64 + d;
@@ -52,11 +58,17 @@ fn boundary_lens(scn: &Scn) -> Vec<usize> {
     set.into_iter().collect()
 }
 
-fn all_lens(uh_extra: usize) -> Vec<usize> {
-    let maxin = max_ipv6_len() - uh_extra;
-    let mut v: Vec<usize> = (0..=maxin).collect();
-    v.push(maxin + 1);
-    v.push(maxin + 21);
+/// payload length whose predicted COMPRESSED datagram is exactly FRAGMENTATION_BUFFER_SIZE
+fn cap_len(scn: &Scn) -> usize {
+    let (_, ch, _, extra) = header_sizes(scn);
+    smoltcp::config::FRAGMENTATION_BUFFER_SIZE - ch - extra
+}
+
+/// every length up to one past the largest datagram the fragmentation buffer admits, + one far beyond
+fn all_lens(scn: &Scn) -> Vec<usize> {
+    let cap = cap_len(scn);
+    let mut v: Vec<usize> = (0..=cap + 1).collect();
+    v.push(cap + 20);
     v
 }
 
@@ -64,6 +76,7 @@ struct Plan {
     udp: Vec<(Scn, Vec<usize>, Option<usize>)>,
     b2b: Vec<Scn>,
     seq: Vec<Scn>,
+    hwchg: Vec<Scn>,
     perm: Vec<Scn>,
     icmp: Vec<Scn>,
     tcp: Vec<Scn>,
@@ -97,7 +110,7 @@ fn plan(tier: Tier) -> Plan {
         if !j.feasible() {
             return;
         }
-        let mut lens = if thorough && every_len { all_lens(48) } else { boundary_lens(&j) };
+        let mut lens = if thorough && every_len { all_lens(&j) } else { boundary_lens(&j) };
         if !thorough && (sp, dp, hl) == (1234, 1234, 64) && pan && mtu == 1500 {
             // quick tier: the first four fragments exhaustively for every address pair
             let mut set: BTreeSet<usize> = lens.iter().copied().collect();
@@ -173,7 +186,8 @@ fn plan(tier: Tier) -> Plan {
                     j.dport = dp;
                     j.hl = hl;
                     j.fill = fill;
-                    let lens = if thorough { (0..=440usize).chain([1400usize, 1452]).collect() } else { boundary_lens(&j).into_iter().filter(|l| *l <= 1452).collect() };
+                    let cap = cap_len(&j);
+                    let lens = if thorough { (0..=440usize).chain([1400usize, 1452, 1453, cap - 1, cap, cap + 1]).collect() } else { boundary_lens(&j) };
                     let (mac, ch, _, _) = header_sizes(&j);
                     udp.push((j, lens, 125usize.checked_sub(mac + ch)));
                 }
@@ -244,6 +258,43 @@ fn plan(tier: Tier) -> Plan {
                                         }
                                     }
                                 }
+                            }
+                        }
+                    }
+                }
+            }
+        }
+    }
+
+    // hardware address change while fragments are pending
+    let mut hwchg: Vec<Scn> = vec![];
+    for (from, to) in [(HwKind::Ext, HwKind::Ext), (HwKind::Ext, HwKind::Short), (HwKind::Short, HwKind::Ext)] {
+        for src in [AddrClass::LlHw, AddrClass::Global] {
+            for dst in [AddrClass::LlHw, AddrClass::Global, AddrClass::McAllNodes, AddrClass::McK(12)] {
+                for (sp, dp) in [(1234u16, 1234u16), (0xf012, 0xf0b7)] {
+                    for per in [false, true] {
+                        for after in 1..=(if thorough { 6usize } else { 3 }) {
+                            let mut j = Scn::base("hwchg");
+                            j.s_hw = from;
+                            j.src = src;
+                            j.dst = dst;
+                            j.sport = sp;
+                            j.dport = dp;
+                            j.hw_to = Some(to);
+                            j.chg_after = after;
+                            j.one_per_poll = per;
+                            if !j.feasible() {
+                                continue;
+                            }
+                            let c = size_class_lens(from, HwKind::Ext, &j.main_dg(0));
+                            let mut sizes = vec![c[2], 600, cap_len(&j)];
+                            if thorough {
+                                sizes.extend([c[1], 300, 1000]);
+                            }
+                            for l in sizes {
+                                let mut k = j.clone();
+                                k.lens = vec![l];
+                                hwchg.push(k);
                             }
                         }
                     }
@@ -340,7 +391,7 @@ fn plan(tier: Tier) -> Plan {
                 j.src = s;
                 j.dst = d;
                 j.hl = hl;
-                let lens = if thorough { all_lens(48) } else { boundary_lens(&j) };
+                let lens = if thorough { all_lens(&j) } else { boundary_lens(&j) };
                 for l in lens {
                     let mut k = j.clone();
                     k.lens = vec![l];
@@ -392,25 +443,28 @@ fn plan(tier: Tier) -> Plan {
             "ports with every length in thorough (4x4; the other pairs: boundary lengths, plus every length for 5 address pairs)": PORTS.iter().map(|p| format!("{:#06x}", p)).collect::<Vec<_>>(),
             "hop limits": HOP_LIMITS,
             "hardware address kinds (S,R)": ["ext-ext", "short-ext", "ext-short", "short-short"],
-            "lengths per job": if thorough { json!(format!("every length 0..={} plus 2 beyond the buffers", max_ipv6_len() - 48)) } else { json!("0,1,2, largest unfragmented +-2 (+-7..9), exact fill of fragments 1..4 +-2 (+-7..9), 1400, max in bounds, 2 beyond; for ports 1234x1234, hop limit 64 additionally every length 0..=420") },
+            "lengths per job": if thorough { json!("every length from 0 to one past the payload whose compressed datagram fills FRAGMENTATION_BUFFER_SIZE exactly (1453..1494 depending on the header class), plus one 20 octets beyond") } else { json!("0,1,2, largest unfragmented +-2 (+-7..9), exact fill of fragments 1..4 +-2 (+-7..9), 1400, max in bounds, uncompressed size = 1500 +-1, compressed size = FRAGMENTATION_BUFFER_SIZE -1/0/+1/+20; for ports 1234x1234, hop limit 64 additionally every length 0..=420") },
             "lengths of the first job": udp.first().map(|(_, l, _)| l.len()),
             "exchanges in total": udp.iter().map(|(_, l, _)| l.len()).sum::<usize>(),
         },
         "seq": {"scenarios": seq.len(), "family A": "ordered pairs of (destination class x size class {1 frame, 2 frames, 3 frames}) for datagram 1 and 2, per source class, sender hw kind {ext, short}", "family B": "source class, hop limit, port pair and size class {1 frame, 3 frames} all change between datagram 1 and 2; destinations {ll-hw, ff02::1}^2",
             "tx buffer pre-fill": "0xa5 (thorough family A also 0x5a)"},
         "udp_prefill_variants": "all ext-ext address pairs x 2 port pairs x 2 hop limits with transmit buffers pre-filled 0x5a, 0xff, 0x00 (everything else 0xa5)",
+        "hwchg": {"scenarios": hwchg.len(), "what": "one fragmented datagram; Interface::set_hardware_addr on the sender after 1..k exchange rounds while fragments are pending",
+            "transitions": ["ext->ext", "ext->short", "short->ext"], "device": ["unlimited", "one frame per poll"], "sizes": "3 frames, 600, largest the fragmentation buffer admits (thorough: + 2 frames, 300, 1000)"},
         "b2b": {"scenarios": b2b.len(), "sizes (each of two datagrams)": b2b_sizes, "address pairs": b2b_pairs.len(), "port pairs": b2b_ports.len()},
         "perm": {"captures": perm.len(), "address pairs": perm_pairs.len(), "port pairs": perm_ports.len(), "sequences": "n!: 2/6/24 permutations; n<=3: + every permutation with one fragment inserted a second time at any position (6 resp. 36 distinct sequences more)"},
         "icmp": {"scenarios": icmp.len(), "address configs": UNICAST_CLASSES.len() * icmp_dsts.len(), "hop limits": HOP_LIMITS},
         "tcp": {"scenarios": tcp.len(), "bytes each way": tcp_n, "address pairs": tcp_pairs.len(), "device mtu": [1500, 125], "hop limits": tcp_hl},
     });
-    Plan { udp, b2b, seq, perm, icmp, tcp, dims }
+    Plan { udp, b2b, seq, hwchg, perm, icmp, tcp, dims }
 }
 
 fn run_one(scn: &Scn, acc: &mut Acc) {
     match scn.part.as_str() {
         "udp" => run_udp_job(scn, &scn.lens.clone(), None, false, acc),
         "b2b" | "seq" => run_b2b(scn, acc),
+        "hwchg" => run_hwchg(scn, acc),
         "icmp" => run_icmp(scn, acc),
         "tcp" => run_tcp(scn, acc),
         "mld" => run_mld(acc),
@@ -519,8 +573,15 @@ fn finalize(sig: &str, scn: &Scn, _detail: &str) -> Result<(String, Scn, String)
                 out.push(v);
             }
             out
-        } else if orig.part == "udp" && t.part == "udp" && t.lens.len() == 1 {
-            vec![t.clone(), Scn { lens: vec![1400], ..t.clone() }, Scn { lens: vec![300], ..t }]
+        } else if matches!(orig.part.as_str(), "udp" | "icmp") && t.part == orig.part && t.lens.len() == 1 {
+            // same length; same COMPRESSED size (a reset changes the header size: failures tied to
+            // a size limit move with it); a large and a medium length
+            let ch0 = hdr_sizes(orig.s_hw, orig.r_hw, orig.src, orig.dst, orig.sport, orig.dport, orig.hl, orig.proto()).1;
+            let ch1 = hdr_sizes(t.s_hw, t.r_hw, t.src, t.dst, t.sport, t.dport, t.hl, t.proto()).1;
+            let same = (orig.lens[0] + ch0).saturating_sub(ch1);
+            vec![t.clone(), Scn { lens: vec![same], ..t.clone() }, Scn { lens: vec![1400], ..t.clone() }, Scn { lens: vec![300], ..t }]
+        } else if orig.part == "hwchg" && t.part == "hwchg" {
+            vec![t.clone(), Scn { lens: vec![600], ..t }]
         } else {
             vec![t]
         }
@@ -544,6 +605,19 @@ fn finalize(sig: &str, scn: &Scn, _detail: &str) -> Result<(String, Scn, String)
     if scn.part == "b2b" {
         steps.push(Box::new(|s| if s.part == "b2b" { vec![Scn { part: "udp".into(), lens: vec![s.lens[0]], ..s.clone() }] } else { vec![] }));
         steps.push(Box::new(|s| if s.part == "b2b" { vec![Scn { part: "udp".into(), lens: vec![*s.lens.last().unwrap()], ..s.clone() }] } else { vec![] }));
+    }
+    if scn.part == "hwchg" {
+        // without the address change at all (then it is an ordinary single-datagram failure)
+        steps.push(Box::new(|s| if s.part == "hwchg" { vec![Scn { part: "udp".into(), hw_to: None, chg_after: 0, one_per_poll: false, ..s.clone() }] } else { vec![] }));
+        steps.push(dim(|t| t.one_per_poll = false));
+        steps.push(dim(|t| {
+            if t.part == "hwchg" {
+                t.chg_after = 1
+            }
+        }));
+        for l in [300usize, 600] {
+            steps.push(Box::new(move |s| if s.part == "hwchg" && l < s.lens[0] { vec![Scn { lens: vec![l], ..s.clone() }] } else { vec![] }));
+        }
     }
     steps.push(dim(|t| t.fill = FILL));
     steps.push(dim(|t| {
@@ -742,6 +816,7 @@ pub fn run(tier: Tier) -> i32 {
     total.merge(par_run(&p.b2b, 16, |s, a| run_b2b(s, a)));
     let t_b2b = rep.t0.elapsed().as_secs_f64();
     total.merge(par_run(&p.seq, 16, |s, a| run_b2b(s, a)));
+    total.merge(par_run(&p.hwchg, 16, |s, a| run_hwchg(s, a)));
     let t_seq = rep.t0.elapsed().as_secs_f64();
     total.merge(par_run(&p.perm, 8, |s, a| run_perm(s, a)));
     let t_perm = rep.t0.elapsed().as_secs_f64();
